@@ -170,7 +170,27 @@ pub fn huge_session(which: u64) -> (SessionCfg, Vec<Op>) {
             ops.extend(b.iter().map(|&x| Op::Byte(x)));
         }
     };
-    match which % 6 {
+    match which % 7 {
+        6 => {
+            // small buffers, very many keys: more than 65,536 characters typed, deleted, moved over; 6,600 submissions, recalls and
+            // completions -- whatever is counted per session crosses 65,535 here
+            cfg.cmd = 8;
+            cfg.hist = 9;
+            cfg.set = SetKind::FixA;
+            for i in 0..66_000u32 {
+                put(&mut ops, if i % 3 == 0 { b"a" } else { b"b" }, 1);
+                put(&mut ops, &LEFT, 1);
+                put(&mut ops, &RIGHT, 1);
+                put(&mut ops, &[0x08], 1);
+                if i % 10 == 9 {
+                    put(&mut ops, if i % 20 == 9 { b"ab\r" } else { b"b\n" }, 1);
+                    put(&mut ops, &UP, 1);
+                    put(&mut ops, &DOWN, 2);
+                    put(&mut ops, b"a\t", 1);
+                    put(&mut ops, &[0x08], 8);
+                }
+            }
+        }
         0 => {
             // one-byte characters up to and across 65,535 / 65,536; a few moves and edits at the far end and at the start; submit
             put(&mut ops, b"a", 65_530);
@@ -246,7 +266,7 @@ pub fn huge_session(which: u64) -> (SessionCfg, Vec<Op>) {
 
 pub fn run_huge(prop: &str, args: &Args, rep: &mut Report) {
     let env = SessionEnv::from_build(prop_bit(prop));
-    let n = 6u64;
+    let n = 7u64;
     for idx in 0..n {
         if !mine(args, idx) || args.only.map(|o| o != idx).unwrap_or(false) {
             continue;
